@@ -107,6 +107,7 @@ type Result struct {
 	Probes     map[string]int
 	Leaked     int
 	InfraMsg   string
+	Budget     string        // which budget ended the run: "steps" or "tasks"
 	SimTime    time.Duration // simulated time that passed (only when a task slept on the fake clock)
 }
 
@@ -503,6 +504,10 @@ func Run(cfg Config, root func()) *Result {
 				return
 			}
 			if s.steps >= cfg.MaxSteps || len(s.tasks) > cfg.MaxTasks {
+				s.res.Budget = "steps"
+				if len(s.tasks) > cfg.MaxTasks {
+					s.res.Budget = "tasks"
+				}
 				s.finishLocked(OutBudget, 0, "", "")
 				s.mu.Unlock()
 				return
